@@ -1,3 +1,4 @@
+use crate::backend::RoundRobin;
 use crate::codec::*;
 use crate::endpoint::Endpoint;
 use crate::error::*;
@@ -8,7 +9,6 @@ use crate::{SocketType, ZmqResult};
 
 use async_trait::async_trait;
 use bytes::Bytes;
-use crossbeam_queue::SegQueue;
 use futures::{SinkExt, StreamExt};
 
 use std::collections::HashMap;
@@ -16,7 +16,7 @@ use std::sync::Arc;
 
 struct ReqSocketBackend {
     pub(crate) peers: scc::HashMap<PeerIdentity, Peer>,
-    pub(crate) round_robin: SegQueue<PeerIdentity>,
+    pub(crate) round_robin: RoundRobin,
     socket_monitor: Mutex<Option<mpsc::Sender<SocketEvent>>>,
     socket_options: SocketOptions,
 }
@@ -125,7 +125,7 @@ impl Socket for ReqSocket {
         Self {
             backend: Arc::new(ReqSocketBackend {
                 peers: scc::HashMap::new(),
-                round_robin: SegQueue::new(),
+                round_robin: RoundRobin::new(),
                 socket_monitor: Mutex::new(None),
                 socket_options: options,
             }),
